@@ -296,6 +296,8 @@ def m_identity(I, args, fn, expr):
     # `From` / `Into` impl is dispatched before this model is consulted only when resolved by rustc;
     # otherwise the evaluator looks for a local impl by the argument's ADT.
     v = args[0]
+    if fn["name"] == "to_string" and isinstance(strip(v), Char):
+        return strip(v).c          # a character becomes a one-character string
     if fn["name"] in ("into", "from") and expr is not None:
         # A conversion that rustc could not resolve (neither in the generic body nor for the current
         # instance) and whose target is a local type different from the argument's: not an identity.
